@@ -117,6 +117,8 @@ def execute(data, tool, args=(), name='in.exp', path=None, timeout=60):
             os.mkdir(os.path.join(top, 'src'))
             path = os.path.join(top, 'src', name)
             if data is not None:        # data None: the named input file does not exist
+                if b'@SELF@' in data:   # INCLUDE shapes name the input file itself
+                    data = data.replace(b'@SELF@', path.encode())
                 with open(path, 'wb') as f:
                     f.write(data)
             n = len(data or b'')
